@@ -52,6 +52,12 @@ func NewGitFS(gitDir string, repo *git.Repository, tree *object.Tree) *FS {
 // Compare takes a path to a git repository and returns errors between HEAD and HEAD~
 // for any incompatible Thrift changes between the two shas.
 func Compare(path string) (compare.Pass, error) {
+	// Work with the absolute path of the repository: file paths are built by
+	// joining this root more than once (for the changed file, then for the
+	// files it includes), which only a rooted path survives.
+	if abs, err := filepath.Abs(path); err == nil {
+		path = abs
+	}
 	pass := compare.Pass{
 		GitDir: path,
 	}
